@@ -606,3 +606,121 @@ Section Stmts.
     - split; [eapply envrel_sext; eauto | apply sext_gext; exact X1].
   Qed.
 End Stmts.
+
+Lemma cond_mono P n m E c b s r s' : (n <= m)%nat ->
+  exec_cond n P E c b s = (Ok r, s') -> exec_cond m P E c b s = (Ok r, s').
+Proof.
+  intros L H. eapply (proj1 (proj2 (proj2 (proj2 (proj2 (proj2 (proj2 (fuel_mono n m L)))))))); [exact H | discriminate].
+Qed.
+
+Lemma if_go_mono P n m els : (n <= m)%nat -> forall cl E s r s',
+  SemStore.if_go (exec_cond n P) (exec_block n P) els cl E s = (Ok r, s') ->
+  SemStore.if_go (exec_cond m P) (exec_block m P) els cl E s = (Ok r, s').
+Proof.
+  intros L cl. induction cl as [|[c b] t IH]; intros E s r s' H; simpl in H |- *.
+  - destruct els as [body|]; [|exact H].
+    unfold bindM in *. destruct (exec_block n P ([] :: E) body s) as [[[sig e1]|er] s1] eqn:Q; [|discriminate].
+    rewrite (block_mono P n m _ _ _ _ _ L Q). exact H.
+  - unfold bindM in *. destruct (exec_cond n P E c b s) as [[[o e1]|er] s1] eqn:Q; [|discriminate].
+    rewrite (cond_mono P n m _ _ _ _ _ _ L Q). destruct o; [exact H | apply IH; exact H].
+Qed.
+
+Lemma holds_of_cell h h' l c v hv :
+  holds h l v -> hget h l = Some hv -> hget h' c = Some hv -> holds h' c v.
+Proof.
+  intros H G G'. destruct H; rewrite G in *; match goal with Q : Some _ = Some _ |- _ => inversion Q; subst end;
+    [apply h_num | apply h_bool | apply h_str]; auto.
+Qed.
+
+(* destruct the scrutinee of the match at the head of an equation in H *)
+Ltac dscrut H Hl :=
+  match type of H with (match ?t with _ => _ end) = _ => destruct t eqn:Hl end.
+
+Section Main.
+  Variable P : program.
+
+  Definition stmt_tie (f : nat) : Prop :=
+    forall st x lenv E s lenv' br,
+      CS.lx_s f st lenv = Some (lenv', br) -> srel st x -> tfrag_s st = true -> envrel lenv E s -> good s ->
+      exists N sig E' s', exec_stmt N P E x s = (Ok (sig, E'), s') /\ sigbr sig br /\
+                          envrel lenv' E' s' /\ gext s s' /\ List.length E' = List.length E.
+  Definition conds_tie (f : nat) : Prop :=
+    forall cl els xcl xels lenv E s lenv' br,
+      CS.lx_c f cl els lenv = Some (lenv', br) -> crel cl xcl -> orel els xels -> tfrag_c cl = true ->
+      match els with C.NoElse => true | C.Else eb => tfrag_l eb end = true -> envrel lenv E s -> good s ->
+      exists N sig E' s',
+        SemStore.if_go (exec_cond N P) (exec_block N P) xels xcl E s = (Ok (sig, E'), s') /\ sigbr sig br /\
+        envrel lenv' E' s' /\ gext s s' /\ List.length E' = List.length E.
+  Definition while_tie (f : nat) : Prop :=
+    forall c b xc xb lenv E s lenv' br,
+      CS.lx_s f (C.SWhile c b) lenv = Some (lenv', br) -> xrel c xc -> lrel b xb ->
+      tfrag_e c = true -> tfrag_l b = true -> envrel lenv E s -> good s ->
+      exists N E' s', exec_while N P E xc xb s = (Ok (SigNone, E'), s') /\ br = false /\
+                      envrel lenv' E' s' /\ gext s s' /\ List.length E' = List.length E.
+
+  (* the value of a declaration / assignment: evaluate, copy *)
+  Lemma value_copy_tie e x lenv E s v :
+    xrel e x -> tfrag_e e = true -> C.eval_expr (fun n => CS.slook n lenv) e = Some v ->
+    envrel lenv E s -> good s ->
+    exists N c s2, (let* v0 := eval_expr N P E x in let* d := depth_fuel in copy_or_ref d v0) (tickst s) = (Ok c, s2) /\
+                   holds (st_heap s2) c v /\ sext s s2.
+  Proof.
+    intros Rx Fx Ev R G.
+    destruct (tie_expr P e x Rx lenv E (tickst s) v Fx Ev (envrel_sext _ _ _ _ (sext_tickst s G) R) (good_tickst s G))
+      as (N & l & s1 & Hx & Hh & X1).
+    destruct (holds_basic _ _ _ Hh) as (hv & Gl & Bl). destruct value_depth_S as [d Hd].
+    exists N, (hnext (st_heap s1)), (allocst s1 hv). split.
+    - rewrite (run_ok _ _ _ _ _ Hx), run_depth, Hd. apply (basic_copied d l s1 hv Gl Bl).
+    - split; [eapply holds_of_cell; [exact Hh | exact Gl | apply hget_allocst]|].
+      eapply sext_trans; [apply sext_tickst; auto|]. eapply sext_trans; [exact X1|].
+      apply sext_allocst. eapply sext_good; eauto.
+  Qed.
+
+  Lemma while_step f : list_tie P f -> while_tie f -> while_tie (S f).
+  Proof.
+    intros IL IW c b xc xb lenv E s lenv' br H Rc Rb Fc Fb R G. cbn [CS.lx_s] in H.
+    destruct (C.eval_expr (fun x => CS.slook x lenv) c) as [[| [|] | | | | |]|] eqn:Ec; try discriminate.
+    - (* the condition holds *)
+      dscrut H Hl; [|discriminate H]. destruct p as [env1 br1].
+      destruct (cond_true_tie P f c b xc xb lenv E s env1 br1 IL Ec Hl Rc Rb Fc Fb R G)
+        as (N1 & sig & E1 & s1 & Hc & Hs & R1 & X1 & Hlen1).
+      destruct br1.
+      + (* break *)
+        inversion H; subst. destruct sig; simpl in Hs; try contradiction.
+        exists (S N1), E1, s1. split; [cbn [exec_while]; rewrite (run_ok _ _ _ _ _ Hc); reflexivity|]. auto.
+      + destruct sig; simpl in Hs; try contradiction.
+        destruct (IW c b xc xb env1 E1 s1 lenv' br H Rc Rb Fc Fb R1 (gext_good _ _ X1))
+          as (N2 & E2 & s2 & Hw & Hbr & R2 & X2 & Hlen2).
+        exists (S (Nat.max N1 N2)), E2, s2. split.
+        * cbn [exec_while]. rewrite (run_ok _ _ _ _ _ (cond_mono P N1 _ _ _ _ _ _ _ (Nat.le_max_l N1 N2) Hc)).
+          exact (while_mono P N2 _ _ _ _ _ _ _ (Nat.le_max_r N1 N2) Hw).
+        * split; [exact Hbr|]. split; [exact R2|]. split; [eapply gext_trans; eauto | congruence].
+    - (* the condition fails *)
+      inversion H; subst.
+      destruct (cond_false_tie P c xc xb lenv' E s Ec Rc Fc R G) as (N1 & s1 & Hc & R1 & X1).
+      exists (S N1), E, s1. split; [cbn [exec_while]; rewrite (run_ok _ _ _ _ _ Hc); reflexivity|]. auto.
+  Qed.
+
+  Lemma conds_step f : list_tie P f -> conds_tie f -> conds_tie (S f).
+  Proof.
+    intros IL IC cl els xcl xels lenv E s lenv' br H Rc Ro Fc Fo R G. cbn [CS.lx_c] in H.
+    inversion Rc as [|c b t xc xb xt Rc1 Rb1 Rt1]; subst.
+    - (* no condition left: the else block, if any *)
+      inversion Ro as [|eb xeb Reb]; subst.
+      + inversion H; subst. exists 0%nat, SigNone, E, s. simpl. repeat split; auto; try apply G; apply heap_extends_refl.
+      + destruct (block_tie P f eb xeb lenv E s lenv' br IL H Reb Fo R G) as (N & sig & E2 & s' & Hb & Hs & R2 & X & Hlen).
+        exists N, sig, (tl E2), s'. simpl. rewrite (run_ok _ _ _ _ _ Hb). auto.
+    - simpl in Fc. apply andb_true_iff in Fc as [Fc Ft]. apply andb_true_iff in Fc as [Fc1 Fb1].
+      destruct (C.eval_expr (fun x => CS.slook x lenv) c) as [[| [|] | | | | |]|] eqn:Ec; try discriminate.
+      + destruct (cond_true_tie P f c b xc xb lenv E s lenv' br IL Ec H Rc1 Rb1 Fc1 Fb1 R G)
+          as (N1 & sig & E1 & s1 & Hc & Hs & R1 & X1 & Hlen1).
+        exists N1, sig, E1, s1. simpl. rewrite (run_ok _ _ _ _ _ Hc). auto.
+      + destruct (cond_false_tie P c xc xb lenv E s Ec Rc1 Fc1 R G) as (N1 & s1 & Hc & R1 & X1).
+        destruct (IC t els xt xels lenv E s1 lenv' br H Rt1 Ro Ft Fo R1 (gext_good _ _ X1))
+          as (N2 & sig & E2 & s2 & Hi & Hs & R2 & X2 & Hlen2).
+        exists (Nat.max N1 N2), sig, E2, s2. simpl.
+        rewrite (run_ok _ _ _ _ _ (cond_mono P N1 _ _ _ _ _ _ _ (Nat.le_max_l N1 N2) Hc)).
+        split; [exact (if_go_mono P N2 _ _ (Nat.le_max_r N1 N2) _ _ _ _ _ Hi)|].
+        split; [exact Hs|]. split; [exact R2|]. split; [eapply gext_trans; eauto | exact Hlen2].
+  Qed.
+End Main.
